@@ -149,6 +149,28 @@ func memberMatches(p fieldParameters, t reflect.Type, tal tagAndLen) bool {
 	return false
 }
 
+// choiceAccepts reports whether t is a CHOICE type one of whose alternatives (directly, or through a
+// further untagged CHOICE) carries the context tag of tal.
+func choiceAccepts(t reflect.Type, tal tagAndLen) bool {
+	for t.Kind() == reflect.Ptr {
+		t = t.Elem()
+	}
+	if t.Kind() != reflect.Struct || t.NumField() == 0 || t.Field(0).Name != "Present" {
+		return false
+	}
+	for i := 1; i < t.NumField(); i++ {
+		p := parseFieldParameters(t.Field(i).Tag.Get("ber"))
+		if p.tagNumber != nil {
+			if tal.class == ClassContextSpecific && *p.tagNumber == tal.tagNumber {
+				return true
+			}
+		} else if choiceAccepts(t.Field(i).Type, tal) {
+			return true
+		}
+	}
+	return false
+}
+
 // ParseField is the main parsing function. Given a byte slice containing type value,
 // it will try to parse a suitable ASN.1 value out and store it
 // in the given Value. TODO : ObjectIdenfier
@@ -263,7 +285,11 @@ func ParseField(v reflect.Value, bytes []byte, params fieldParameters) error {
 
 				for i := 1; i < structType.NumField(); i++ {
 					if structParams[i].tagNumber == nil {
-						// TODO: choice type with a universal tag
+						// an untagged alternative that is itself a CHOICE is selected by the tags of its own alternatives
+						if choiceAccepts(structType.Field(i).Type, tal) {
+							present = i
+							break
+						}
 					} else if tal.class == ClassContextSpecific && *structParams[i].tagNumber == tal.tagNumber {
 						present = i
 						break
